@@ -233,6 +233,59 @@ func videoParamVariantR(codec string, k int, reorder bool) *videoParams {
 	return p
 }
 
+// changeOneField derives parameter sets that differ from p in exactly one respect (one VP9 header field, only the
+// PPS or only the SPS, only the VPS, ...): a comparison that forgets one field sees no change at all.
+func changeOneField(codec string, p *videoParams, pick int) *videoParams {
+	q := *p
+	q.desc = p.desc + "'"
+	switch codec {
+	case "vp9":
+		switch pick % 4 {
+		case 0:
+			q.vp9Range = !p.vp9Range
+		case 1:
+			q.vp9W, q.vp9H = p.vp9H+16, p.vp9W // only the frame size
+		case 2:
+			// 8-bit 4:2:0 <-> 8-bit 4:2:2 (profile and chroma subsampling move together by definition)
+			if p.vp9Profile == 1 {
+				q.vp9Profile = 0
+			} else {
+				q.vp9Profile, q.vp9Depth = 1, 8
+			}
+		default:
+			if p.vp9Profile == 2 {
+				q.vp9Profile, q.vp9Depth = 0, 8
+			} else {
+				q.vp9Profile, q.vp9Depth = 2, 10
+			}
+		}
+	case "h264":
+		if pick%2 == 0 {
+			q.pps = append([]byte(nil), p.pps...)
+			q.pps[len(q.pps)-1] ^= 0x15
+		} else {
+			q.sps = append([]byte(nil), p.sps...)
+			// level_idc (byte 3 of the NAL unit) among 30, 31, 32
+			q.sps[3] = byte(30 + (int(p.sps[3])-30+1)%3)
+		}
+	case "h265":
+		switch pick % 3 {
+		case 0:
+			q.vps = append([]byte(nil), p.vps...)
+			q.vps[6] ^= 0x03
+		case 1:
+			q.sps = append([]byte(nil), p.sps...)
+			q.sps[3] ^= 0x20 // general_tier_flag
+		default:
+			q.pps = append([]byte(nil), p.pps...)
+			q.pps[len(q.pps)-1] ^= 0x80
+		}
+	case "av1":
+		return videoParamVariant("av1", pick)
+	}
+	return &q
+}
+
 func (p *videoParams) equal(q *videoParams) bool {
 	return string(p.sps) == string(q.sps) && string(p.pps) == string(q.pps) && string(p.vps) == string(q.vps) &&
 		p.vp9W == q.vp9W && p.vp9H == q.vp9H && p.vp9Profile == q.vp9Profile && p.vp9Range == q.vp9Range && p.vp9Depth == q.vp9Depth &&
